@@ -101,6 +101,13 @@ func replayOblig(o *Oblig, prop string, workdir string) *ReplayRecord {
 	}
 	g := o.gen
 	fn := g.fn
+	if fn == nil {
+		rec.Reason = "lemma over spec functions: no code to replay"
+		return rec
+	}
+	if tmpl, err := os.ReadFile(filepath.Join(verifRoot, "replay", sanitize(o.Fn)+".go.tmpl")); err == nil {
+		return replayTemplate(o, rec, string(tmpl), workdir)
+	}
 	if fn.Signature.Recv() != nil || len(fn.FreeVars) > 0 {
 		rec.Reason = "generic replay supports plain functions only (method or closure needs a receiver/environment)"
 		g.modelOnly(o, rec, workdir)
@@ -445,6 +452,56 @@ func replayOblig(o *Oblig, prop string, workdir string) *ReplayRecord {
 			rec.Reason = "the real function does not panic on this model and the " + o.Kind + " clause cannot be evaluated outside the verifier"
 		} else {
 			rec.Reason = "clause could not be translated to Go: " + fmt.Sprint(gg.err)
+		}
+	}
+	return rec
+}
+
+// replayTemplate: per-kernel replay. The template is a Go test (package of the function) with {{param}}
+// placeholders for the scalar parameters of the counterexample and {{clause}} for the obligation's label;
+// it prints REPLAY-FAIL when the real code violates the clause on those inputs, REPLAY-OK otherwise.
+func replayTemplate(o *Oblig, rec *ReplayRecord, tmpl, workdir string) *ReplayRecord {
+	g := o.gen
+	g.modelOnly(o, rec, workdir)
+	if rec.Model == nil {
+		rec.Reason = "model extraction failed"
+		return rec
+	}
+	src := tmpl
+	for name, v := range rec.Model {
+		val := v
+		if p, ok := g.params[name]; ok && p.GT != nil {
+			if bits, signed, isInt := intInfo(p.GT); isInt {
+				if n, ok := parseSMTInt(v, signed, bits); ok {
+					val = n.String()
+					rec.Model[name] = val
+				}
+			}
+		}
+		src = strings.ReplaceAll(src, "{{"+name+"}}", val)
+	}
+	label := o.Name
+	if i := strings.LastIndex(label, "/"); i >= 0 {
+		label = label[i+1:]
+	}
+	src = strings.ReplaceAll(src, "{{clause}}", label)
+	if strings.Contains(src, "{{") {
+		rec.Reason = "replay template has placeholders the model does not bind"
+		return rec
+	}
+	rec.GoTest = src
+	out, err := runOverlayTest(g.fnTypesPkg().Path(), src, workdir, sanitize(o.Name))
+	rec.ReplayOutput = truncate(out, 6000)
+	switch {
+	case strings.Contains(out, "REPLAY-FAIL"):
+		rec.Verdict = "fails-on-real-code"
+		rec.Reason = "the real code violates the clause on the counterexample (template replay)"
+	case strings.Contains(out, "REPLAY-OK"):
+		rec.Reason = "the real code satisfies the clause on this model"
+	default:
+		rec.Reason = "replay template did not run"
+		if err != nil {
+			rec.Reason += ": " + err.Error()
 		}
 	}
 	return rec
